@@ -124,14 +124,16 @@ struct SavedSeams {
     void (*srand_)(unsigned); int (*rand_)();
 };
 
-inline void installBasicSeams() {
+inline void installBasicSeams(bool fileLayerAtLibc = false) {      // fileLayerAtLibc: the platform's own file functions stay in place; the engine wraps fopen/fputs/fclose/fflush at link time instead
     static bool done = false;
     if (done) return;
     done = true;
     GetPlatformSpecificTimeInMillis = simTimeInMillis;
     GetPlatformSpecificTimeString = simTimeString;
-    PlatformSpecificFOpen = simFOpen; PlatformSpecificFPuts = simFPuts; PlatformSpecificFClose = simFClose;
-    PlatformSpecificFlush = simFlush; PlatformSpecificStdOut = (PlatformSpecificFile)&simStdoutTag;
+    if (!fileLayerAtLibc) {
+        PlatformSpecificFOpen = simFOpen; PlatformSpecificFPuts = simFPuts; PlatformSpecificFClose = simFClose;
+        PlatformSpecificFlush = simFlush; PlatformSpecificStdOut = (PlatformSpecificFile)&simStdoutTag;
+    }
     PlatformSpecificSrand = simSrand; PlatformSpecificRand = simRandFn;
     SimJmp& j = simJmp();
     j.realSetJmp = PlatformSpecificSetJmp; j.realLongJmp = PlatformSpecificLongJmp; j.realRestore = PlatformSpecificRestoreJumpBuffer;
